@@ -136,6 +136,8 @@ def make_variant(rng, ref, pos, kind, max_len=4, shiftable_ok=False):
 
 def kind_of(v):
     pos, r, a = v
+    if a.startswith("<"):
+        return "sym"                # symbolic ALT (<DEL>, <DUP>, ...): never re-aligned, no ground truth
     if len(r) == len(a):
         return "snv" if len(r) == 1 else "mnp"
     _, nr, na = normalize(pos, r, a)
@@ -145,7 +147,7 @@ def kind_of(v):
 
 
 def is_right_anchored(v):
-    return len(v[1]) != len(v[2]) and kind_of(v) != "cpx" and normalize(*v)[0] == v[0]
+    return kind_of(v) != "sym" and len(v[1]) != len(v[2]) and kind_of(v) != "cpx" and normalize(*v)[0] == v[0]
 
 
 def shiftable(ref, v):
@@ -254,6 +256,8 @@ def truth_of(ref, cols, listed, carried, aln, overhang=10):
     rlo, rhi = cols[lo_kept][1], cols[hi_kept][1]
     out, touch = {}, set()
     for idx, (pos, r, a) in enumerate(listed):
+        if a.startswith("<"):
+            continue
         if rlo - 1 <= pos + len(r) and pos - 1 <= rhi:
             touch.add(idx)
         if idx in carried:
